@@ -12,7 +12,7 @@ def flatten(trace):
     fe = next((e for e in trace if e["ev"] == "files"), None)
     if fe is None:
         what = next((e.get("what", "") for e in trace if e["ev"] in ("crash", "refused")), "no files event")
-        return dict(ok=False, recs=[], idx=[], pvrt=[], pvsrc=[], what=str(what)[:120])
+        return dict(ok=False, recs=[], idx=[], refs=[], pvrt=[], pvsrc=[], what=str(what)[:120])
     files = fe["files"]
     recs = [r for f in files for r in f["recs"]]
     farm_of = {}
@@ -31,7 +31,7 @@ def flatten(trace):
                  for i, p in enumerate(r["pid"])]
         out.append(dict(time=r["time"], parts=parts))
     last = files[-1] if files else dict(pv_release_time=[], pv_src=[])
-    return dict(ok=True, recs=out, idx=[f["idx"] for f in files], pvrt=last["pv_release_time"], pvsrc=last["pv_src"], what="")
+    return dict(ok=True, recs=out, idx=[f["idx"] for f in files], refs=[f.get("ref", 0) for f in files], pvrt=last["pv_release_time"], pvsrc=last["pv_src"], what="")
 
 
 def run_pair(sc):
